@@ -560,19 +560,19 @@ func C30(c *Ctx) {
 		}
 		found := false
 		for _, cl := range fn.AnonFuncs {
-			gets := Calls(cl, false, Named("NoKV.(*Txn).Get"))
-			sets := Calls(cl, false, Named("NoKV.(*Txn).SetEntry", "NoKV.(*Txn).Delete", "NoKV.(*Txn).Set"))
-			if len(gets) == 0 || len(sets) == 0 || len(cl.Params) == 0 {
+			if len(cl.Params) == 0 {
+				continue
+			}
+			// reads and writes on the closure's transaction, directly or through a same-package
+			// helper that is handed that transaction
+			nGets, getsOK := txnEffects(c, cl, cl.Params[0], Named("NoKV.(*Txn).Get"), 1)
+			nSets, setsOK := txnEffects(c, cl, cl.Params[0], Named("NoKV.(*Txn).SetEntry", "NoKV.(*Txn).Delete", "NoKV.(*Txn).Set"), 1)
+			if nGets == 0 || nSets == 0 {
 				continue
 			}
 			found = true
-			same := true
-			for _, x := range append(gets, sets...) {
-				if x.Common().Args[0] != cl.Params[0] {
-					same = false
-				}
-			}
-			c.Decide(same, r2, key(cl, "get+set-on-closure-txn"), cl.Pos(), len(gets)+len(sets), "read and write use the closure's transaction", "the read-modify-write does not use the Update closure's transaction for both the read and the write")
+			same := getsOK && setsOK
+			c.Decide(same, r2, key(cl, "get+set-on-closure-txn"), cl.Pos(), nGets+nSets, "read and write use the closure's transaction", "the read-modify-write does not use the Update closure's transaction for both the read and the write")
 			// the closure is passed to db.Update
 			upd := false
 			for _, u := range Calls(fn, false, Named("NoKV.(*DB).Update")) {
@@ -778,22 +778,44 @@ func bceCheck(c *Ctx, rule string) {
 			}
 		}
 	}
-	allowed := map[string]map[string]int{
-		"parseRESP":  {"IsInBounds": 1},
-		"readLine":   {},
-		"expectCRLF": {},
-		"readBulk":   {"IsSliceInBounds": 1},
-	}
-	for fnName, al := range allowed {
-		got := counts[fnName]
-		ok := true
-		for kind, n := range got {
-			if n > al[kind] {
-				ok = false
+	// the parser = parseRESP and the package functions it (transitively) calls; the allowance is for
+	// the parser as a whole, so inlining a helper or splitting one off does not move the verdict
+	group := map[string]bool{}
+	if root := c.Fn(redisPkg, "parseRESP"); root != nil {
+		var walk func(f *ssa.Function, depth int)
+		walk = func(f *ssa.Function, depth int) {
+			if f == nil || group[f.Name()] || depth > 3 {
+				return
 			}
+			group[f.Name()] = true
+			c.Touch(f)
+			AllInstrs(f, true, func(in ssa.Instruction) {
+				if ci, ok := in.(ssa.CallInstruction); ok {
+					if h := StaticFn(ci.Common()); h != nil && h.Blocks != nil && FuncPkgPath(h) == FuncPkgPath(root) {
+						walk(h, depth+1)
+					}
+				}
+			})
 		}
-		c.Decide(ok, rule, redisPkg+"."+fnName+"#unproven-bounds-checks", pk.Syntax[0].Pos(), len(got)+1, fmt.Sprintf("unproven checks %v within the frozen allowance %v", got, al), fmt.Sprintf("the compiler cannot prove %v in %s (allowance %v): an input-dependent index or slice bound lost its guard", got, fnName, al))
+		walk(root, 0)
 	}
+	allowed := map[string]int{"IsInBounds": 1, "IsSliceInBounds": 1}
+	got := map[string]int{}
+	var names []string
+	for fnName := range group {
+		names = append(names, fnName)
+		for kind, n := range counts[fnName] {
+			got[kind] += n
+		}
+	}
+	sort.Strings(names)
+	ok := true
+	for kind, n := range got {
+		if n > allowed[kind] {
+			ok = false
+		}
+	}
+	c.Decide(ok, rule, redisPkg+".parseRESP#unproven-bounds-checks", pk.Syntax[0].Pos(), len(got)+len(names)+1, fmt.Sprintf("unproven checks %v in the RESP parser %v within the frozen allowance %v", got, names, allowed), fmt.Sprintf("the compiler cannot prove %v in the RESP parser %v (allowance %v): an input-dependent index or slice bound lost its guard", got, names, allowed))
 	if total == 0 {
 		c.Errorf("K15: the compiler printed no bounds-check diagnostics at all (flag not honoured?)")
 	}
@@ -923,4 +945,46 @@ func txnGetFoundnessRule(c *Ctx, rule string) {
 		}
 		c.Decide(!bad, rule, key(fn, "found-ness#not-by-nil-value"), fn.Pos(), 1, "Txn.Get does not treat a nil value as a missing key", "Txn.Get reports ErrKeyNotFound when the entry's value is nil: an entry holding the empty string reads back from an SST with a nil value, so a live key turns invisible to transactional reads after a flush")
 	}
+}
+
+// txnEffects counts the calls matched by m that f performs on a transaction – directly or in a
+// same-package helper it hands a transaction to – and reports whether every one of them is
+// made on txn (the closure's own transaction).
+func txnEffects(c *Ctx, f *ssa.Function, txn ssa.Value, m Matcher, depth int) (int, bool) {
+	n, all := 0, true
+	AllInstrs(f, false, func(in ssa.Instruction) {
+		ci, ok := in.(ssa.CallInstruction)
+		if !ok {
+			return
+		}
+		if m(ci.Common()) {
+			n++
+			if len(ci.Common().Args) == 0 || ci.Common().Args[0] != txn {
+				all = false
+			}
+			return
+		}
+		if depth <= 0 {
+			return
+		}
+		h := StaticFn(ci.Common())
+		if h == nil || h.Blocks == nil || h == f || FuncPkgPath(h) != FuncPkgPath(f) {
+			return
+		}
+		for i, hp := range h.Params {
+			if TypeName(hp.Type()) != "NoKV.Txn" || i >= len(ci.Common().Args) {
+				continue
+			}
+			hn, hall := txnEffects(c, h, hp, m, depth-1)
+			if hn == 0 {
+				continue
+			}
+			c.Touch(h)
+			n += hn
+			if !hall || ci.Common().Args[i] != txn {
+				all = false
+			}
+		}
+	})
+	return n, all
 }
